@@ -363,6 +363,23 @@ func (s *Sim) runShadows(p *Pkt) *shadowResult {
 		}, false, s.recvCB(full, pkt, rel))
 		s.Stats.Count("shadow_executions")
 		s.Stats.Count("shadow_executions")
+		// another action is paused and unpaused again on the branch: the set is what it was
+		otherPaused := s.Model.PausedAct["ACTION_SWAP"]
+		res.V["actionhistory-other"] = s.runVariant("actionhistory-other", func(ctx sdk.Context) error {
+			po := &executortypes.MsgPauseAction{Signer: auth, ActionId: "ACTION_SWAP"}
+			uo := &executortypes.MsgUnpauseAction{Signer: auth, ActionId: "ACTION_SWAP"}
+			seq := []sdk.Msg{po, uo}
+			if otherPaused {
+				seq = []sdk.Msg{uo, po}
+			}
+			for _, m := range seq {
+				if err := s.adminOnBranch(ctx, m); err != nil {
+					return err
+				}
+			}
+			return nil
+		}, false, s.recvCB(full, pkt, rel))
+		s.Stats.Count("shadow_executions")
 	}
 	if in.Canon && hasShadow(prof, "limitup") {
 		res.V["limitup"] = s.runVariant("limitup", func(ctx sdk.Context) error {
@@ -502,7 +519,7 @@ func (s *Sim) checkShadow(m *txMeta, p *Pkt, in *PktInfo, mo *MsgObs, ack AckInf
 			// the set-up applies, on a branch of the committed state, an authority message that the model says is
 			// valid right now (pause what is not paused, unpause what is paused, raise the limit): a refusal means the
 			// chain's answer does not follow from its committed state (e.g. state kept outside the store)
-			prop := map[string]string{"actionflip": "C09", "unpaused": "C08", "extrapause": "C08", "limitup": "C18", "pausehistory-unpause-smaller": "C08", "pausehistory-unpause-larger": "C08", "limitexact": "C18", "limitminus": "C18", "actionhistory-paused": "C09", "actionhistory-unpaused": "C09"}[v.Name]
+			prop := map[string]string{"actionflip": "C09", "unpaused": "C08", "extrapause": "C08", "limitup": "C18", "pausehistory-unpause-smaller": "C08", "pausehistory-unpause-larger": "C08", "limitexact": "C18", "limitminus": "C18", "actionhistory-paused": "C09", "actionhistory-unpaused": "C09", "actionhistory-other": "C09"}[v.Name]
 			if prop == "" {
 				panic(harnessErr("shadow %s set-up failed for packet op=%d: %s", v.Name, p.Origin, v.SetupErr))
 			}
@@ -675,6 +692,16 @@ func (s *Sim) checkShadow(m *txMeta, p *Pkt, in *PktInfo, mo *MsgObs, ack AckInf
 		}
 		if hu.Success != asUnpaused.Success || (hu.Success && !sameStrs(relDeltas(hu.Deltas), relDeltas(asUnpaused.Deltas))) {
 			s.violate("C09", "state-depends-only-on-current-set", "unpaused-via-history-differs-from-unpaused", fmt.Sprintf("packet op=%d: %.120s vs %.120s", p.Origin, hu.Ack, asUnpaused.Ack))
+		}
+	}
+	if ho := sh.V["actionhistory-other"]; ho != nil && pl.Swap == nil {
+		s.Stats.Count("rule:C09.branch-history-other-action")
+		if ho.Success != base.Success || string(ho.Ack) != string(base.Ack) || !sameStrs(relDeltas(ho.Deltas), relDeltas(base.Deltas)) {
+			fp := "pause-and-unpause-of-another-action-changed-the-transfer"
+			if pl.HasFee && model.PausedAct["ACTION_FEE"] && ho.Success {
+				fp = "accepted-while-action-paused after another action was paused and unpaused"
+			}
+			s.violate("C09", "state-depends-only-on-current-set", fp, fmt.Sprintf("packet op=%d: as is %.160s / after pausing and unpausing ACTION_SWAP %.160s", p.Origin, base.Ack, ho.Ack))
 		}
 	}
 	// ---- C18: refused here and accepted with the limit raised => the limit was the reason => must be over
